@@ -168,6 +168,18 @@ def property_checks(inp):
             f = (numpy.arange(N) - c) * df
             ana = s * numpy.sqrt(2 * numpy.pi) * numpy.exp(-2 * (numpy.pi * s * f) ** 2)
             A(("%s Gaussian -> Gaussian/%s" % (tag, par), _err(mod.ft(g, d), ana.astype(complex)), 1e-4))
+        # the same sample values stored in a narrow dtype (camera frames: uint8 / int16 / uint16, float32) with a Python-int
+        # or float spacing are the same samples: the transform must be that of the float64 copy, nothing may wrap around
+        if tag == "module":
+            di = inp.get("int_delta", 3)
+            for dt, top, tol_ in ((numpy.uint8, 255, 1e-12), (numpy.int16, 32767, 1e-12), (numpy.uint16, 65535, 1e-12), (numpy.int64, 10 ** 6, 1e-12), (numpy.float32, 1000, 1e-5)):
+                xi = (npr.integers(top // 2, top, size=batch + (N,), endpoint=True)).astype(dt)
+                mi = (npr.integers(top // 2, top, size=batch + (R, N), endpoint=True)).astype(dt)
+                for dd, dn in ((di, "int"), (float(di), "float")):
+                    worst_ = max(_err(mod.ft(xi, dd), mod.ft(xi.astype(float), dd)), _err(mod.ift(xi, dd), mod.ift(xi.astype(float), dd)),
+                                 _err(mod.ft2(mi, dd), mod.ft2(mi.astype(float), dd)), _err(mod.ift2(mi, dd), mod.ift2(mi.astype(float), dd)),
+                                 _err(mod.rft(xi, dd), mod.rft(xi.astype(float), dd)))
+                    A(("transforms of %s data with %s spacing = transforms of the same values as float64" % (numpy.dtype(dt).name, dn), worst_, tol_))
         # real-input variants
         xr_ = x.real
         if N >= 2 and N % 2 == 0:
@@ -189,7 +201,7 @@ def gen_input(rng, nmax):
     return {"N": N, "delta": rng.loguniform(1e-3, 10.), "batch": list(rng.choice([(), (), (2,), (3,), (2, 2)])),
             "real": rng.random() < 0.3, "data_seed": rng.getrandbits(32), "a": complex(rng.uniform(-2, 2), rng.uniform(-2, 2)),
             "b": complex(rng.uniform(-2, 2), rng.uniform(-2, 2)), "R": N if rng.random() < 0.7 else rng.randint(1, 7),
-            "k": rng.randint(0, 40)}
+            "k": rng.randint(0, 40), "int_delta": rng.randint(2, 5)}
 
 
 def falsify(ctx, deep=False):
